@@ -31,7 +31,7 @@ func init() {
 		Rule: "transaction staging 1..4 branches (new and existing) via `wrgl commit --txid`; `wrgl transaction commit|discard` with a crash after every write prefix and a failure at every object-store / ref-store write, re-run afterwards; sequences commit;commit and commit;discard; oracle: all-or-nothing-or-completable, no branch two commits ahead, per-branch reflog entry tagged with the transaction, committed status kept; non-trivial = >=2 staged branches; distinct by plan hash",
 		Gen: func(seed uint64, tier string) any {
 			r := NewRand(seed)
-			p := C14Plan{Branches: r.Range(1, 4), Op: Pick(r, []string{"commit", "commit", "discard"}), Mode: Pick(r, []string{"crash", "error", "sequence"}), UUIDSeed: r.Uint64()}
+			p := C14Plan{Branches: r.Range(1, 4), Op: Pick(r, []string{"commit", "commit", "discard"}), Mode: Pick(r, []string{"crash", "error", "sequence", "sqlerror"}), UUIDSeed: r.Uint64()}
 			p.Base = SynthSpec{N: Pick(r, []int{1, 3, 8, 30, 260}), NCols: r.Range(2, 3), Seed: r.Uint64()}
 			for i := 0; i < p.Branches; i++ {
 				p.Existing = append(p.Existing, r.Chance(0.6))
@@ -57,7 +57,7 @@ func execC14(t *testing.T, raw json.RawMessage, res *Result) {
 		return
 	}
 	if p.Branches < 1 || p.Branches > 6 || p.Base.N < 1 || p.Base.N > 1000 || p.Base.NCols < 2 || p.Base.NCols > 6 ||
-		(p.Op != "commit" && p.Op != "discard") || (p.Mode != "crash" && p.Mode != "error" && p.Mode != "sequence") {
+		(p.Op != "commit" && p.Op != "discard") || (p.Mode != "crash" && p.Mode != "error" && p.Mode != "sequence" && p.Mode != "sqlerror") {
 		res.Invalid("plan out of range")
 		return
 	}
@@ -396,6 +396,55 @@ func execC14(t *testing.T, raw json.RawMessage, res *Result) {
 		}
 		for j := 1; j <= nRef; j++ {
 			if !try(true, j) {
+				return
+			}
+		}
+	case "sqlerror":
+		// every SQL statement of the operation fails once (statement-level error inside the
+		// ref store: between the statements of one logical ref update)
+		n.Restore(pre)
+		SQLFault.Arm(0)
+		r1 := run(opArgs...)
+		nStmt := SQLFault.Count()
+		if r1.Err != nil || nStmt == 0 || nStmt > 5000 {
+			res.Invalid("statement count run: err=%v statements=%d", r1.Err, nStmt)
+			return
+		}
+		defer SQLFault.Arm(0)
+		for j := 1; j <= nStmt; j++ {
+			n.Restore(pre)
+			firedBefore := SQLFault.Fired
+			SQLFault.Arm(j)
+			rr := run(opArgs...)
+			SQLFault.Arm(0)
+			when := fmt.Sprintf("error at SQL statement %d/%d", j, nStmt)
+			if rr.Out.PanicVal != nil || rr.Out.Deadlock {
+				res.Violate("error-panic", "%s: panicked: %v", when, rr.Out.PanicVal)
+				return
+			}
+			if SQLFault.Fired == firedBefore {
+				continue
+			}
+			res.fault("sql_statement_error", 1)
+			if rr.Err == nil {
+				// the failed statement was tolerated: then the operation's postcondition must hold in full
+				v, status, staged, err := view(n.Capture())
+				if err != nil {
+					res.Violate("refdb-unreadable", "%s: %v", when, err)
+					return
+				}
+				if p.Op == "commit" {
+					if d := allCommitted(v, status); d != "" {
+						res.Violate("error-swallowed", "%s: the command reported success but %s", when, d)
+						return
+					}
+				} else if b := untouched(v); b != "" || staged != 0 || status != "absent" {
+					res.Violate("error-swallowed", "%s: discard reported success but branch %q changed / %d staged refs remain / transaction %s", when, b, staged, status)
+					return
+				}
+				continue
+			}
+			if !judge(when, n.Capture()) {
 				return
 			}
 		}
